@@ -113,6 +113,43 @@ def union_bound_sweep(ctx, viol, st):
                 viol.append({"signature": "union-bound-exceeds-delta:" + k, "message": f"{k}: numeric union bound {v} > delta {d} at K={K}, m={m}", "replay": {"kind": "sweep", "K": K, "m": m, "delta": d, "which": k}})
 
 
+def asymptotic_mass(ctx, viol, st):
+    """search aid (NOT a proof): the implementation's own schedule evaluated at rounds 2^0 .. 2^400 (contraction 1); with terms
+    decreasing in t, sum_t term(t) >= sum_k 2^k * term(2^(k+1)).  If this LOWER bound on the union-bound mass already exceeds
+    delta the schedule cannot be valid over an unbounded horizon, however harmless every finite prefix looks."""
+    from scipy import stats
+    rng = ctx.rng
+    KMAX = 400                      # rounds up to 2^400 (all quantities stay within double range)
+    for K, m, delta in ((3, 2, 0.1), (32, 2, 0.1), (4, 3, 0.5), (2, 2, 0.9)):
+        X = [[k / 64.0, 0.5] for k in range(K)]; Y = [[0.25 * (k % 7)] * m for k in range(K)]
+        W = [[1 if i == j else 0 for j in range(m)] for i in range(m)]
+        sched = lambda r, Y=Y, K=K, m=m: (Y, [[1.0] * m for _ in range(K)])
+        nv = 1.0
+        for algo, attr, kind in (("PaVeBa", "compute_radius", "ball"), ("PaVeBaGP-IH", "compute_alpha", "gauss"), ("PaVeBaPartialGP-rect", "compute_alpha", "gauss"),
+                                 ("VOGP", "compute_beta", "gauss0"), ("EpsilonPAL", "compute_beta", "gauss0"), ("Auer", "compute_beta", "auer")):
+            a, stub = algrun.build(algo, X, Y, W, 0.25, sched, delta=delta, noise_var=nv, contraction=1.0)
+            terms = []
+            for k in range(0, KMAX + 1):
+                t = 2 ** k
+                rr = t if kind != "gauss0" else t - 1                # VOGP / eps-PAL rounds are 0-based (formula uses round + 1)
+                a.round = rr if k <= 30 else float(rr)                  # beyond int64 range numpy needs floats
+                v = float(np.asarray(getattr(a, attr)(), dtype=float).ravel()[0])
+                if kind == "ball":
+                    term = K * float(stats.chi2.sf(v * v * float(t) / nv, m))
+                elif kind == "auer":
+                    term = K * m * 2 * float(stats.norm.sf(v * np.sqrt(float(t)) / np.sqrt(nv)))
+                else:
+                    term = K * m * 2 * float(stats.norm.sf(v))
+                terms.append(term)
+            lower = sum(float(2 ** k) * terms[k + 1] for k in range(KMAX))
+            st["asymptotic_series"] += 1
+            if lower > delta:
+                kbad = next(k for k in range(KMAX) if sum(float(2 ** j) * terms[j + 1] for j in range(k + 1)) > delta)
+                viol.append({"signature": "union-bound-diverges:" + algo,
+                             "message": f"{algo} (K={K}, m={m}, delta={delta}, noise variance {nv}, contraction 1): with the scale the implementation returns at rounds 2^k, the union-bound mass summed up to round 2^{kbad + 1} is already at least {sum(float(2 ** j) * terms[j + 1] for j in range(kbad + 1)):.4g} > delta (terms decay too slowly: term(2^{kbad}) = {terms[kbad]:.3g}, term(2^{kbad + 1}) = {terms[kbad + 1]:.3g})",
+                             "replay": {"kind": "asymptotic", "algo": algo, "K": K, "m": m, "delta": delta}})
+
+
 def realised_mass(ctx, viol, st):
     """PaVeBa with its real empirical model at contraction 1 on seeded Gaussian observations: every region that
     modeling() builds has radius r_t (a function of the ROUND) around the mean of the n_i samples the design
@@ -169,7 +206,7 @@ def realised_mass(ctx, viol, st):
 
 def run(ctx):
     viol = []
-    st = {"formula_points": 0, "region_checks": 0, "sweep_points": 0, "realised_runs": 0, "regions_built": 0, "regions_with_fewer_samples_than_rounds": 0}
+    st = {"formula_points": 0, "region_checks": 0, "sweep_points": 0, "realised_runs": 0, "asymptotic_series": 0, "regions_built": 0, "regions_with_fewer_samples_than_rounds": 0}
     cases = impl_scales(ctx)
     st["formula_points"] = len(cases)
     for fname, args, v, uniform in cases:
@@ -185,6 +222,8 @@ def run(ctx):
             ln = int(loc.get("line", 0)); viol_case = cases[max(0, (ln - 5) // 2)]
         except Exception:
             pass
+        if "was not found in the current" in out or "Cannot find a physical path" in out or "Gen_formulas" in (loc.get("message") or ""):
+            viol_case = None          # the regenerated formula file itself is incomplete: not a per-case disagreement
         if viol_case:
             viol.append({"signature": "schedule-formula-differs:" + viol_case[0],
                          "message": f"{viol_case[0]}(noise_var, delta, K, m, round, contraction = {viol_case[1]}): the implementation returns {viol_case[2]} which is NOT within 1e-9 of the regenerated formula (translator / source disagreement)",
@@ -193,10 +232,11 @@ def run(ctx):
             cb = {"what": "interval validation of the regenerated formulas failed", "log": out[-800:]}
     region_checks(ctx, viol, st)
     realised_mass(ctx, viol, st)
+    asymptotic_mass(ctx, viol, st)
     if not ctx.quick:
         union_bound_sweep(ctx, viol, st)
     return {"correspondence_broken": cb, "evaluations": sum(st.values()), "distinct_nontrivial": st["formula_points"] + st["region_checks"],
-            "rule": "real algorithm objects (K 2-6, m 2-3, delta, noise variance, contraction, rounds 1-500): the float returned by compute_radius / compute_alpha / compute_beta must lie within 1e-9 of the regenerated Coq expression (proved per point by the interval tactic); the region obtained by feeding a scale and a known (mean, correlated covariance) through design_space.update must be mean +- scale*sqrt(diag cov) / (mean, cov, scale); PaVeBa runs with the real empirical model at contraction 1: the exact chi-square failure probabilities of all regions actually built (round radius vs samples actually held) must sum to at most delta; thorough tier adds a numeric union-bound sweep with exact Gaussian / chi-square tails (a test, not a proof)",
+            "rule": "real algorithm objects (K 2-6, m 2-3, delta, noise variance, contraction, rounds 1-500): the float returned by compute_radius / compute_alpha / compute_beta must lie within 1e-9 of the regenerated Coq expression (proved per point by the interval tactic); the region obtained by feeding a scale and a known (mean, correlated covariance) through design_space.update must be mean +- scale*sqrt(diag cov) / (mean, cov, scale); PaVeBa runs with the real empirical model at contraction 1: the exact chi-square failure probabilities of all regions actually built (round radius vs samples actually held) must sum to at most delta; the implementation's scale at rounds 2^0..2^400 gives a lower bound on the union-bound mass that must not exceed delta; thorough tier adds a numeric union-bound sweep with exact Gaussian / chi-square tails (a test, not a proof)",
             "samples": [{"formula": c[0], "args": c[1], "value": c[2]} for c in cases[:3]], "violations": viol, "extra": st}
 
 
